@@ -9,6 +9,7 @@ import FDAProofs.Lemmas.LocalPoly
 import FDAProofs.Lemmas.Gaussian
 import Mathlib.Tactic.Positivity
 import Mathlib.Tactic.NormNum
+import Mathlib.Tactic.IntervalCases
 import Mathlib.Algebra.Polynomial.Eval.Degree
 import Mathlib.Algebra.Polynomial.Degree.Lemmas
 import Mathlib.Algebra.Polynomial.BigOperators
@@ -237,6 +238,9 @@ theorem local_window (k : CKernel) (h : ℚ) (hh : 0 < h) (d n : ℕ) (x y y' : 
     linarith [not_lt.mp hc]
 
 open Polynomial in
+/-- Clause *reproduces polynomials up to the fitted degree* (1-D, every degree, polynomial given
+in the raw coordinate): wherever the local problem is solvable, `y = P(x)` with `deg P ≤ d` is
+estimated as `P(x₀)`. -/
 theorem reproduces_polynomials (k : CKernel) (h : ℚ) (hh : h ≠ 0) (d n : ℕ) (x y : ℕ → ℚ) (x0 v : ℚ)
     (P : ℚ[X]) (hP : P.natDegree ≤ d) (hy : ∀ i, i < n → y i = P.eval (x i))
     (hv : lpEstimate1 k h d n x y x0 = some v) : v = P.eval x0 := by
@@ -602,6 +606,36 @@ theorem centred_eq_raw (h : ℚ) (hh : h ≠ 0) (d n : ℕ) (w x y : ℕ → ℚ
 
 
 
+/-- Clause *reproduces polynomials*, two dimensions, polynomials given in the raw coordinates,
+total degree `≤ d ≤ 3` (the property's range): the estimate at `(x01, x02)` is the polynomial
+there.  Partial only in the degree bound (the expansion about the query point is checked by
+`ring` degree by degree); every design, bandwidth and size. -/
+theorem reproduces_polynomials_2d_partial (bisq : Bool) (h : ℚ) (hh : h ≠ 0) (d : ℕ) (hd : d ≤ 3) (n : ℕ)
+    (x1 x2 y : ℕ → ℚ) (x01 x02 v : ℚ) (c : ℕ → ℕ → ℚ)
+    (hy : ∀ i, i < n → y i = ∑ k1 ∈ range (d + 1), ∑ k2 ∈ range (d + 1 - k1), c k1 k2 * x1 i ^ k1 * x2 i ^ k2)
+    (hv : lpEstimate2 bisq h d n x1 x2 y x01 x02 = some v) :
+    v = ∑ k1 ∈ range (d + 1), ∑ k2 ∈ range (d + 1 - k1), c k1 k2 * x01 ^ k1 * x02 ^ k2 := by
+  unfold lpEstimate2 lpEstimate2W at hv
+  have hp : 0 < (monos2 d).length := by
+    interval_cases d <;> decide
+  have key := reproduces_column_space n (monos2 d).length hp _ _ y (taylor2 d c h x01 x02) v ?_ hv
+  · rw [key]
+    interval_cases d <;>
+      simp [taylor2, monos2, List.range_succ, Finset.sum_range_succ]
+  · intro i hi
+    rw [hy i hi]
+    have e1 : x1 i = h * ((x1 i - x01) / h) + x01 := by field_simp; ring
+    have e2 : x2 i = h * ((x2 i - x02) / h) + x02 := by field_simp; ring
+    have hD : ∀ a, design2 h d x1 x2 x01 x02 i a =
+        ((x1 i - x01) / h) ^ ((monos2 d).getD a (0, 0)).1 * ((x2 i - x02) / h) ^ ((monos2 d).getD a (0, 0)).2 :=
+      fun a => rfl
+    simp only [hD]
+    generalize (x1 i - x01) / h = z1 at e1 ⊢
+    generalize (x2 i - x02) / h = z2 at e2 ⊢
+    rw [e1, e2]
+    interval_cases d <;>
+      simp [taylor2, monos2, List.range_succ, Finset.sum_range_succ, Nat.choose] <;> ring
+
 /-! ### Non-vacuity: the hypotheses of the theorems above are met by concrete data -/
 
 /-- A well-posed local problem: three points, Epanechnikov, `h = 2`, degree 1, query `1`. -/
@@ -649,5 +683,9 @@ example : lpEstimate1 .bisquare 2 0 3 (ofList [0, 1, 2]) (ofList [1, 2, 4]) 1 = 
 /-- 2-D: five points, Epanechnikov, degree 1 (`shift_scale_invariant_2d_partial`, `pointwise_2d`). -/
 example : lpEstimate2 false 2 1 5 (ofList [0, 1, 0, 1, 1 / 2]) (ofList [0, 0, 1, 1, 1 / 2]) (ofList [1, 2, 3, 4, 5])
     (1 / 2) (1 / 2) = some (55 / 18) := by
+  decide +kernel
+/-- `reproduces_polynomials_2d_partial`: `y = 1 + 2 x₁ + 3 x₂` on five points, degree 1. -/
+example : lpEstimate2 false 2 1 5 (ofList [0, 1, 0, 1, 1 / 2]) (ofList [0, 0, 1, 1, 1 / 2]) (ofList [1, 3, 4, 6, 7 / 2])
+    (1 / 2) (1 / 2) = some (7 / 2) := by
   decide +kernel
 end C06
